@@ -285,7 +285,6 @@ theorem trk_kernel_entry_removed_iff_last_owner (ops : List Op) (hv : Valid init
       rw [finalizeLoop_ent_notin _ _ k hr] at he
       have hek := c1 k
       unfold EntOk at hek
-      simp only [step] at hek
       rw [he] at hek
       cases hd : e.deleting with
       | false => rfl
